@@ -328,8 +328,9 @@ class Sweep:
             elif kind == 'cut_putback':
                 piece = node.get_slice(i, j, fld, cut=True)
                 node2_ = follow(root, path) if path else root
-                if not node2_ or node2_.a.__class__ is not cls0:
-                    return      # the cut normalised the container away: nothing to put back into
+                if not node2_ or node2_ is not node or node2_.a.__class__ is not cls0 or \
+                        len(getattr(node2_.a, fld)) != n - (j - i):
+                    return      # the cut normalised the container away (into its only element): nothing to put back into
                 node2_.put_slice(piece, i, i, fld)
                 exp = old
             elif kind.startswith('donor_ml'):
